@@ -64,6 +64,10 @@ def cases(rng, tier):
                 if any(x.get("newid") for x in chn):
                     c["features"]["chains"][i] = [{"m": "LZMA2"}]
             out.append({"kind": "ref", "case": c})
+    # histories whose sessions differ in encryption: needs_password() must look at every folder
+    for i in range(12 if tier == "quick" else 200):
+        pattern = rng.choice([["pw", None], [None, "pw"], ["pw", "pw", None], [None, "pw", None], ["pw", None, None]])
+        out.append({"kind": "mixed", "pattern": pattern, "sessions": [G.member_list(rng, n=rng.choice([1, 2]), max_len=3000) for _ in pattern], "seed": rng.getrandbits(30)})
     root = os.environ.get("VERIF_REPO", "/repo")
     for p in sorted(glob.glob(os.path.join(root, "tests", "data", "*.7z"))):
         if os.path.basename(p) not in FIXTURE_SKIP:
@@ -235,6 +239,30 @@ def run_case(case):
                 kinds = sorted({e["kind"] for e in case["tree"]})
                 cell = "tree|%s|%s|%s" % (G.chain_label(case["chain"]), "pw" if pw is not None else "-", ",".join(kinds))
                 sample = {"origin": "py7zr-writeall", "entries": len(case["tree"]), "kinds": kinds}
+            elif case["kind"] == "mixed":
+                for si, (pwd, mem) in enumerate(zip(case["pattern"], case["sessions"])):
+                    for m in mem:
+                        m["name"] = "s%d/%s" % (si, m["name"])
+                    with py7zr.SevenZipFile(path, "w" if si == 0 else "a", password=pwd) as z:
+                        for n_, b_ in K.mat_members(mem):
+                            z.writestr(b_, n_)
+                pw = "pw"
+                supplied = None
+                cell = "mixed|" + "+".join("E" if x else "-" for x in case["pattern"])
+                sample = {"origin": "py7zr, sessions with/without password", "pattern": case["pattern"]}
+                # opened WITHOUT a password: extraction is impossible, but the flag must still be true
+                with open(path, "rb") as f:
+                    lay = R.parse(f.read(), None, decode=False, strict_tiling=False)
+                has_aes = any(c.method == R.codecs.M_AES for f_ in lay.streams.folders for c in f_.coders)
+                with py7zr.SevenZipFile(path, "r") as z:
+                    obs["needs_password_without_extraction"] = obs.get("needs_password_without_extraction", 0) + 1
+                    if bool(z.needs_password()) != has_aes:
+                        enc = ["E" if any(c.method == R.codecs.M_AES for c in f_.coders) else "-" for f_ in lay.streams.folders]
+                        viol.append({"key": "needs_password-wrong/mixed-folders", "what": "opened without password: needs_password()=%s but folders are %s (E = has 7zAES coder)" % (z.needs_password(), "".join(enc))})
+                    names_ = z.getnames()
+                    if names_ != [m["name"] for mem in case["sessions"] for m in mem]:
+                        viol.append({"key": "names-not-in-stored-order", "what": "mixed history lists %r" % names_[:5]})
+                supplied = "pw"
             elif case["kind"] == "ref":
                 c = case["case"]
                 members, layout = L.realise(c)
